@@ -239,10 +239,15 @@ func (c *Ctx) ruleCompletedOnce(rule string) {
 	R := c.R
 	c.Rep.rule(rule, "E2 path", "one Completed per completion after the worker function; one of Successful/Failed per invocation", 4)
 	if R.Completion != nil {
-		v := c.vocab([]string{"wf", "Completed"}, nil)
+		v := c.vocab([]string{"wf", "Completed", "inflight-"}, nil)
 		for _, sg := range v.seq(rule, false).segments(R.Completion) {
 			c.Rep.check(sg.count("Completed") == 1 && sg.before("wf", "Completed"), rule, R.Completion.Short(), "Completed count", sg.End, "exactly one Completed, after the worker function",
 				"the completion callback must count exactly one Completed, after the worker function returned ["+strings.Join(sg.Syms, " ")+"]")
+			// "at rest" is what WaitUntilFinished returns on: the job is counted before its slot is released
+			if sg.has("inflight-") && sg.has("Completed") {
+				c.Rep.check(sg.index("Completed") < sg.index("inflight-"), rule, R.Completion.Short(), "Completed counted after the slot is released", sg.End, "Completed before the in-flight decrement",
+					"the completion callback releases its in-flight slot (and with it the barrier waiters) before it counts the job as Completed: a caller returning from WaitUntilFinished reads Completed one short of Successful+Failed ["+strings.Join(sg.Syms, " ")+"]")
+			}
 		}
 	}
 	c.ruleWrapperAccounting(rule)
